@@ -148,6 +148,7 @@ pub enum RKind {
     InclByRef,
     ExclByRef,
     From,
+    FromByRef,
 }
 
 #[derive(Serialize, Deserialize, Clone, Debug)]
@@ -211,7 +212,8 @@ where
             3..=5 => RKind::Incl,
             6 => RKind::InclByRef,
             7 => RKind::ExclByRef,
-            _ => RKind::From,
+            8 => RKind::From,
+            _ => RKind::FromByRef,
         };
         let (start, end): (T, T) = if rng.chance(1, 40) {
             // the whole type (only a bounded number of steps from either end is ever taken)
@@ -240,7 +242,7 @@ where
                 (s, p)
             }
         };
-        let start = if kind == RKind::From && T::dist(start, T::MAXV) > 1000 && rng.chance(1, 2) {
+        let start = if matches!(kind, RKind::From | RKind::FromByRef) && T::dist(start, T::MAXV) > 1000 && rng.chance(1, 2) {
             // RangeFrom close to MAX (never stepped past MAX - 1)
             T::MAXV.offset(-(rng.range(0, 12) as i64)).unwrap_or(start)
         } else {
@@ -272,7 +274,7 @@ where
         let it = match s.kind {
             RKind::Excl | RKind::ExclByRef => RMI::R(a..b),
             RKind::Incl | RKind::InclByRef => RMI::RI(a..=b),
-            RKind::From => RMI::RF(a..),
+            RKind::From | RKind::FromByRef => RMI::RF(a..),
         };
         RM { it, rev: false }
     }
@@ -291,6 +293,10 @@ where
                 RK::RI(konst::iter::into_iter!(&r))
             }
             RKind::From => RK::RF(konst::iter::into_iter!(a..)),
+            RKind::FromByRef => {
+                let r = a..;
+                RK::RF(konst::iter::into_iter!(&r))
+            }
         }
     }
 
@@ -447,6 +453,7 @@ where
             }
             if T::dist(a, T::MAXV) >= 1 {
                 v.push(RSetup { kind: RKind::From, start: a.to_s(), end: a.to_s() });
+                v.push(RSetup { kind: RKind::FromByRef, start: a.to_s(), end: a.to_s() });
             }
         }
         v
@@ -474,7 +481,7 @@ where
         }
         let (a, b) = (T::from_s(&s.start), T::from_s(&s.end));
         let incl = matches!(s.kind, RKind::Incl | RKind::InclByRef);
-        if s.kind == RKind::From {
+        if matches!(s.kind, RKind::From | RKind::FromByRef) {
             return Ok(());
         }
         let count = if incl { T::dist(a, b).saturating_add((a <= b) as usize) } else { T::dist(a, b) };
